@@ -226,7 +226,14 @@ def report_check(ctx, rng, spec, gkind, tol, max_iter, ffp):
         if movable and all(math.isfinite(x) for p in M.snapshot_poses(g2) for x in p):
             v = movable[int(rng.integers(len(movable)))]
             kk = M.kind(v.pose)
-            v.pose = M.mkpose(kk, gen.perturb(rng, kk, M.fl(v.pose), 0.3, 0.1))
+            moved_to = M.fl(M.mkpose(kk, gen.perturb(rng, kk, M.fl(v.pose), 0.3, 0.1)))
+            how = int(rng.integers(3))
+            if how == 0:
+                v.pose = M.mkpose(kk, moved_to)
+            elif how == 1:
+                v.pose[:] = moved_to  # written into the existing pose object: the vertex still holds the same object
+            else:
+                np.copyto(np.asarray(v.pose), np.array(moved_to))
             ffp2 = ffp
             if rng.random() < 0.5:
                 # the set of fixed vertices differs from the previous call too (another vertex marked fixed, or fix_first_pose switched)
